@@ -2575,3 +2575,113 @@ def ob_evaluate_all(ctx, n_routes, n_jobs):
             res.status, res.detail = 'inconclusive', 'vacuous: fewer than two groupings explored'
     res.time = time.time() - t0
     return res
+
+
+# ---------------------------------------------------------------------------------------------------------------------
+# C01: task order as a hard rule
+
+def ob_tour_order_gate(ctx, k):
+    """C01 (task order as a hard rule): `TourOrderConstraint::evaluate` (real MIR incl. `evaluate_result`,
+    `compare_order_results`) on a tour of k jobs whose order results (Value(v) / Default / Ignored) are symbolic and which
+    is ordered as it stands: for every leg p, the target is accepted exactly when the tour with the target inserted at p
+    is still ordered (no activity with a greater order before one with a smaller order; Default after every Value;
+    Ignored never constrains), and a `stopped` violation implies that every later position violates the order too."""
+    from symex import DynV
+    name = f'tour_order_gate[k={k}]'
+    res = Result(name)
+    res.bounds = f'closed tour of {k} jobs, every leg; order per job symbolic: Value(v) with integer v in [0,2^16], Default or Ignored'
+    t0 = time.time()
+    fns = ctx.prog.find_method('TourOrderConstraint', 'evaluate', trait='FeatureConstraint')
+    if len(fns) != 1:
+        raise Inconclusive('TourOrderConstraint::evaluate not found')
+    n_legs = k + 1
+
+    def order_sym(i):
+        return z3.Int(f'okind{i}'), z3.Int(f'oval{i}')   # kind: 0 Value, 1 Default, 2 Ignored
+
+    def greater(a, b):
+        (ka, va), (kb, vb) = a, b
+        return z3.Or(z3.And(ka == 0, kb == 0, va > vb), z3.And(ka == 1, kb == 0))
+
+    def ordered(seq):
+        return z3.And(*[z3.Not(greater(seq[i], seq[j])) for i in range(len(seq)) for j in range(i + 1, len(seq))]) if len(seq) > 1 else z3.BoolVal(True)
+
+    for p in range(n_legs):
+        class Env(drivers.Env):
+            def dyn_closure(self, engine, st, tag, args):
+                if tag == 'order':
+                    single = deref_all(args[0])
+                    idx = [i for i, c in enumerate(self.singles) if c.v is single]
+                    if len(idx) != 1:
+                        raise Inconclusive('order function called for an unknown job')
+                    kind, val = order_sym(idx[0])
+                    return EnumV('tour_order::OrderResult', kind, {0: [FV(False, val)]})
+                return super().dyn_closure(engine, st, tag, args)
+
+        env = Env(ctx.prog, ctx.layout, 16)
+        eng = symex.Engine(ctx.prog, ctx.layout, env)
+
+        def body(st, p=p, env=env, eng=eng):
+            env.assumptions.clear()
+            for i in range(k + 1):
+                kind, val = order_sym(i)
+                env.assumptions.append(z3.And(kind >= 0, kind <= 2, val >= 0, val <= 2 ** 16))
+            singles = [ArcV(Cell(env.struct('jobs::Single', places=VecV([]), dimens=StateV()))) for _ in range(k + 1)]
+            env.singles = [s.cell for s in singles]
+            zero, mx = FV.const(0), FV.max_value()
+            acts = [env.activity(IV(0), zero, zero, mx, zero, zero, has_job=False)]
+            acts += [env.activity(IV(i + 1), zero, zero, mx, zero, zero, job=singles[i]) for i in range(k)]
+            acts.append(env.activity(IV(0), zero, zero, mx, zero, zero, has_job=False))
+            rc = env.route_ctx(env.actor(IV(0), zero, IV(0), FV.const(1000)), acts, True)
+            tgt = env.activity(IV(99), zero, zero, mx, zero, zero, job=singles[k])
+            acts_vec = env.field(env.field(env.field(rc, 'context::RouteContext', 'route'), 'route::Route', 'tour'), 'solution::tour::Tour', 'activities')
+            actx = activity_ctx(env, p, RefV(acts_vec, p), RefV(Cell(tgt), 0), RefV(acts_vec, p + 1))
+            con = env.struct('tour_order::TourOrderConstraint', code=Agg('struct', [IV(7, 'i32')], 'goal::ViolationCode'),
+                             order_fn=EnumV('types::Either', 0, {0: [ArcV(Cell(DynV('order')))]}))
+            return eng.exec_fn(st, fns[0], [RefV(Cell(con), 0), RefV(Cell(move_ctx_activity(env, rc, actx)), 0)])
+
+        paths = eng.explore(body, max_paths=20000)
+        res.paths += len(paths)
+        res.functions |= eng.functions_used
+        tour = [order_sym(i) for i in range(k)]
+        target = order_sym(k)
+        assume = [ordered(tour)]
+        saw_acc = saw_rej = saw_stop = False
+        for st, out in paths:
+            if out is None:
+                if not no_panic(ctx, res, env, st, assume, what=name):
+                    break
+                continue
+            accepted = zs(out.discr == 0)
+            post = ordered(tour[:p] + [target] + tour[p:])
+            claim = accepted == post
+            v = out.payload.get(1, [None])[0]
+            if v is not None:
+                stopped = env.field(v, 'goal::ConstraintViolation', 'stopped').t
+                later = [z3.Not(ordered(tour[:q] + [target] + tour[q:])) for q in range(p, n_legs)]
+                claim = z3.And(claim, z3.Implies(z3.And(z3.Not(accepted), stopped), z3.And(*later)))
+                saw_stop = saw_stop or witness(ctx, res, env, st, z3.And(z3.Not(accepted), stopped), assume)
+            if not decide_claim(ctx, res, env, st, claim, assume, what=f'{name} leg {p}: accepted <=> order kept; stopped => no later position keeps it'):
+                if res.status == 'violated' and res.model is not None:
+                    m = res.model
+
+                    def o(i):
+                        kind, val = order_sym(i)
+                        return {'kind': ['value', 'default', 'ignored'][_ev_int(m, kind)], 'value': _ev_int(m, val)}
+                    res.case = {'kind': 'tour_order', 'closed': True, 'shift_start': 0, 'dep0': 0, 'shift_end': 100000, 'l0': 0, 'lend': 0,
+                                'dur': [], 'dist': [], 'dur_default': 0, 'dist_default': 0, 'leg': p,
+                                'jobs': [{'loc': i + 1, 'dur': 0, 'tws': 0, 'twe': None, 'order': o(i)} for i in range(k)],
+                                'target': {'loc': 99, 'dur': 0, 'tws': 0, 'twe': None, 'order': o(k)}}
+                break
+            if not no_panic(ctx, res, env, st, assume, what=name):
+                break
+            saw_acc = saw_acc or witness(ctx, res, env, st, accepted, assume)
+            saw_rej = saw_rej or witness(ctx, res, env, st, z3.Not(accepted), assume)
+        if res.status != 'holds':
+            break
+        res.witnesses += int(saw_acc) + int(saw_rej) + int(saw_stop)
+        if not saw_acc or (k > 0 and not saw_rej):
+            res.status, res.detail = 'inconclusive', f'vacuous at leg {p}: accepted={saw_acc} rejected={saw_rej}'
+            break
+    res.time = time.time() - t0
+    return res
